@@ -171,3 +171,57 @@ def clear_data_contract():
         return [("after clear_data the grid is gone (the next call rebuilds it)", z3.BoolVal(isinstance(o.fields["data_x"], VNone))),
                 ("after clear_data the mask is gone as well (grid and mask are only ever rebuilt together)", z3.BoolVal(isinstance(o.fields["data_mask"], VNone)))]
     return Contract("PanthLikelihood.clear_data", {"self": mk}, ensures=ensures, raises=lambda S, a, e: z3.BoolVal(False))
+
+
+# ------------------------------------------------------------------ PanthLikelihood.run_sympify: the pair (expression, integrated) it hands back (C19)
+def _rs_region(fnode):
+    """the `if try_integration: ... else: ...` statement and the return"""
+    import ast
+    for k, s in enumerate(fnode.body):
+        if isinstance(s, ast.If) and isinstance(s.test, ast.Name) and s.test.id == "try_integration":
+            return fnode.body[k:]
+    return None
+
+
+def run_sympify_pair_contract(integrate_raises=False):
+    """What get_pred integrates depends on the pair (eq, integrated): integrated=True means `eq` is the antiderivative of 1/sqrt(H^2) (get_pred takes differences of it),
+    integrated=False means `eq` is H^2 itself (get_pred integrates 1/sqrt of it numerically).  Ensures: the pair returned is one of the two consistent ones -- the parsed
+    function with False, or the result of sympy.integrate with True -- whatever sympy.integrate does (returns, returns an unevaluated Integral, raises).
+    time_limit is used through its contract (E4 / E5 of pyvc/excedge.py, discharged in the same check): entering and leaving the block raises nothing of its own; a timeout
+    fires while the body runs.  Timeout points between the last two statements of the body are outside C19's quantifier (see DESIGN 5.7)."""
+    from pyvc.values import VFn, VBool, VLabel, Fn
+    EQ0 = z3.Const("eq.parsed", Fn)
+    EQ2 = z3.Const("eq.antiderivative", Fn)
+    UNEVAL = z3.Bool("integrate.returns.unevaluated")
+    RAISES = z3.Bool("integrate.raises")
+
+    def m_integrate(eng, st, args, kwargs, node):
+        if integrate_raises:
+            raise M.PyRaise("NotImplementedError")          # variant: sympy gives up with an exception (any subclass of Exception)
+        return VFn(EQ2)
+
+    def m_has(eng, st, recv, args, kwargs, node):
+        return VBool(UNEVAL)
+
+    def setup(eng, st, args):
+        eng.models["sympy.integrate"] = m_integrate
+        eng.methods["has"] = m_has
+        eng.opaque_call = lambda e, s, fn, a, k, n: VFn(z3.Const(fresh_name("sqrt_eq"), Fn))
+
+    def ensures(S, a, res):
+        if not (isinstance(res, VTuple) and len(res.items) == 3):
+            return [("returns (string, expression, integrated)", z3.BoolVal(False))]
+        eq, integ = res.items[1], res.items[2]
+        if not isinstance(eq, VFn):
+            return [("the expression returned is the parsed function or the antiderivative", z3.BoolVal(False))]
+        b = S.b(integ)
+        return [("integrated=True is paired with the antiderivative, integrated=False with the parsed function",
+                 z3.Or(z3.And(b, eq.t == EQ2), z3.And(z3.Not(b), eq.t == EQ0))),
+                ("an unevaluated integral, or an integration that raised, is never reported as integrated", z3.Implies(z3.Or(UNEVAL, z3.BoolVal(integrate_raises)), z3.Not(b))),
+                ("without try_integration nothing is integrated", z3.Implies(z3.Not(S.b(a["try_integration"])), z3.And(z3.Not(b), eq.t == EQ0)))]
+
+    c = Contract("PanthLikelihood.run_sympify", {"fcn_i": T.label, "eq": lambda e, s: VFn(EQ0), "tmax": T.int, "try_integration": T.bool},
+                 ensures=ensures, setup=setup, region=_rs_region, raises=lambda S, a, e: z3.BoolVal(False),
+                 globals_={"sqrt": lambda e, s: VFn(z3.Const("sympy_symbols.sqrt", Fn)), "x": lambda e, s: VFn(z3.Const("sympy_symbols.x", Fn))})
+    c.region_name = "pair handed back (%s)" % ("sympy.integrate raises" if integrate_raises else "sympy.integrate returns")
+    return c
